@@ -88,6 +88,10 @@ type ImportResult struct {
 	Deps     []*GenFile // separate mode: the imported packages, generated on their own
 	Opened   []string
 	Recs     []RecordSpec
+	// DepErr: an imported package could not be folded by the evaluator, so
+	// the root file was checked against an incomplete set of packages and
+	// nothing may be concluded from its type errors
+	DepErr error
 }
 
 // GenerateImports folds File.Generate over the import scenario.
@@ -125,6 +129,9 @@ func (g *Gen) GenerateImports(o geneval.Options, combined bool) *ImportResult {
 			g.In.Opened = nil
 			text, gerr, err := g.B.GenerateFile(dfc, do)
 			gf.Text, gf.GenErr, gf.EvalErr = text, gerr, err
+			if err != nil && res.DepErr == nil {
+				res.DepErr = err
+			}
 			if err == nil && gerr == "" {
 				g.parseAndCheckAs(gf, dep.path, extra)
 				if gf.Pkg != nil {
